@@ -62,11 +62,46 @@ func replayC09(c *fw.Ctx, raw json.RawMessage) (string, string) {
 	return "C09:" + cs.Mode + ":" + cl, m
 }
 
+// c09Clash reports whether the request names an object that cannot live in a file system next to
+// the objects that exist (in the model) at that moment: the name is a directory of an existing
+// object, or an existing object is a directory of the name. The statement restricts the property to
+// names representable as files, so such programs are not explored further (this includes merely
+// asking for such a name: the memory store says 404, the file store reports the ENOTDIR it gets).
+// A name that WAS a directory of objects deleted since is representable and is explored.
+func c09Clash(m *gcs.Model, o *GOp) bool {
+	type bn struct{ b, n string }
+	var names []bn
+	switch o.Kind {
+	case "Upload", "BareFile", "Patch", "Delete", "Get", "GetMeta", "DropSidecar":
+		names = append(names, bn{o.Bucket, o.Name})
+	case "Compose":
+		names = append(names, bn{o.Bucket, o.Name})
+		for _, s := range o.Srcs {
+			names = append(names, bn{o.Bucket, s.Name})
+		}
+	case "Copy":
+		names = append(names, bn{o.Bucket, o.Name}, bn{o.DstBucket, o.DstName})
+	}
+	for _, x := range names {
+		for l := range m.Buckets[x.b] {
+			if strings.HasPrefix(l, x.n+"/") || strings.HasPrefix(x.n, l+"/") {
+				return true
+			}
+		}
+	}
+	return false
+}
+
+const c09Skip = "skip-unrepresentable"
+
 func runRestart(c *fw.Ctx, ops []GOp, checkAll bool) (string, string, uint64) {
 	w := newGCSWorld(c, "file", 1, nil)
 	defer w.Close()
 	w.restart = true
 	for i := range ops {
+		if c09Clash(w.model, &ops[i]) {
+			return "", c09Skip, 0
+		}
 		if m, cl := w.Step(&ops[i], checkAll || i == len(ops)-1); m != "" {
 			return m, cl + ":" + c09Tag(&ops[i]), 0
 		}
@@ -146,6 +181,9 @@ func runStoreDiff(c *fw.Ctx, ops []GOp, checkAll bool) (string, string, uint64) 
 	wm.skipState, wf.skipState = true, true
 	gm, gf := map[string]int{}, map[string]int{}
 	for i := range ops {
+		if c09Clash(wm.model, &ops[i]) {
+			return "", c09Skip, 0
+		}
 		o1, o2 := ops[i], ops[i]
 		m1, _ := wm.Step(&o1, false)
 		exm := append([]exchange(nil), wm.exch...)
@@ -188,6 +226,10 @@ func runC09(c *fw.Ctx) {
 		{Kind: "Upload", Proto: "resumable", Bucket: "b", Name: "d/sub/y", Data: []byte("deep"), Meta: gcs.ObjMeta{ContentType: "text/y", CacheControl: "no-cache"}},
 		{Kind: "Upload", Proto: "media", Bucket: "b", Name: "a.txt", Data: []byte("A-overwritten"), Meta: gcs.ObjMeta{ContentType: "text/2"}},
 		{Kind: "Upload", Proto: "media", Bucket: "b", Name: "d-e", Data: []byte{}, Meta: ct},
+		// a name that is, or was, a directory of other objects (only explored while no object lives below it)
+		{Kind: "Upload", Proto: "media", Bucket: "b", Name: "d", Data: []byte("D"), Meta: ct},
+		{Kind: "Upload", Proto: "multipart", Bucket: "b", Name: "d/sub", Data: []byte("DS"), Meta: ct},
+		{Kind: "Delete", Bucket: "b", Name: "d"},
 		P("a.txt", `{"metadata":{"p":"1"},"contentType":"text/patched"}`),
 		P("d/x", `{"metadata":{"k":"w","n":"2"}}`),
 		{Kind: "Delete", Bucket: "b", Name: "a.txt"},
@@ -245,6 +287,12 @@ func runC09(c *fw.Ctx) {
 						c.Eval(1)
 						c.Trans(1)
 						c.Trace(1)
+					}
+					if cl == c09Skip {
+						if rec {
+							c.Outcome("skipped:unrepresentable-name-set")
+						}
+						continue
 					}
 					if m != "" {
 						if rec {
